@@ -1,7 +1,7 @@
 from dataclasses import dataclass
 from enum import Enum
 from graphlib import TopologicalSorter
-from typing import get_args, get_origin
+from typing import Any, get_args, get_origin
 
 from .utils import UnionTypes
 
@@ -108,7 +108,7 @@ def typeorder(t1, t2):
 
 def subclasscheck(t1, t2):
     """Check whether t1 is a "subclass" of t2."""
-    if t1 == t2:
+    if t1 == t2 or t2 is Any:
         return True
 
     if (
